@@ -35,4 +35,5 @@ def run(ctx, rep):
     rep.run(RF.rule_whole_file_writes, ctx, rep, "R6", min_sites=3)
     rep.run(RF.rule_item_state_defined_before_use, ctx, rep, "R7")
     rep.run(RF.rule_memo_key_complete, ctx, rep, "R8")
+    rep.run(RF.rule_directory_creation_tolerates_races, ctx, rep, "R9")
     rep.run(RF.rule_locals_defined, ctx, rep, "U1", packages=("gtwrap/", "scripts/"), min_functions=3)
